@@ -103,7 +103,7 @@ HEAT_ZONES_STRS = tuple(ZON_ROLE_MAP[t] for t in ZON_ROLE_MAP.HEAT_ZONES)
 
 SCH_DOM_ID = vol.Match(r"^[0-9A-F]{2}$")
 SCH_UFH_IDX = vol.Match(r"^0[0-8]$")
-SCH_ZON_IDX = vol.Match(r"^0[0-9AB]$")  # TODO: what if > 12 zones? (e.g. hometronics)
+SCH_ZON_IDX = vol.Match(r"^0[0-9A-F]$")  # TODO: what if > 12 zones? (e.g. hometronics)
 
 
 def ErrorRenamedKey(new_key: str) -> Callable[[Any], None]:
@@ -173,7 +173,7 @@ SCH_TCS_ZONES_ZON = vol.Schema(
 )
 SCH_TCS_ZONES = vol.All(
     vol.Schema({vol.Required(SCH_ZON_IDX): SCH_TCS_ZONES_ZON}),
-    vol.Length(min=1, max=12),
+    vol.Length(min=1, max=16),
     extra=vol.PREVENT_EXTRA,
 )
 
